@@ -90,7 +90,7 @@ def main(c):
     c.cov["distinct_nontrivial"] = len(cases)
     c.cov["evaluations"] = sum(outcomes.values())          # decoder + validator runs (per arithmetic profile)
     c.cov["exhaustive"] = True
-    c.cov["rule"] = ("every meaningful (base in v4/v4+withdrawn/v6 MP_REACH/v6 MP_REACH+MP_UNREACH) x (eBGP, iBGP) x (2-octet, "
+    c.cov["rule"] = ("every meaningful (base in v4/v4+withdrawn/v6 MP_REACH/v6 MP_REACH+MP_UNREACH/both families in one UPDATE) x (eBGP, iBGP) x (2-octet, "
                      "4-octet AS) x 20 attribute types (incl. MP_REACH itself) x 10 corruption kinds" +
                      " x an optional second corrupted attribute (5 in-place corruption kinds)" +
                      "; distinct = distinct cases of Rfc7606.tla")
